@@ -65,6 +65,30 @@ Theorem C11_replay_cross_task_right :
 Proof. exact replay_cross_task_right. Qed.
 Print Assumptions C11_replay_cross_task_right.
 
+(* "every later call of an abandoned library function is traced again": a library call left by longjmp never runs its
+   exit hook, which is what points its GOT slot back to the hook (the dynamic linker resolves the slot during the first
+   call).  After the longjmp every slot of an abandoned call - from the slot the popped setjmp entry had up to the
+   longjmp itself - points to the hook again (Model Part 1d, restore_jmpbuf_rstack since fix 23390dc) ... *)
+Theorem C11_longjmp_rearms_abandoned : forall s count i y, 0 < count -> count <= g_idx s ->
+  count - 1 <= i < g_idx s -> g_arr s i = Some y -> g_got (g_longjmp first_fixed s count) y = true.
+Proof. exact longjmp_rearms_abandoned. Qed.
+Print Assumptions C11_longjmp_rearms_abandoned.
+
+(* ... and the invariant "a slot that does not point to the hook belongs to a call still on the shadow stack" survives *)
+Theorem C11_longjmp_keeps_got_invariant : forall s count, 0 < count -> count <= g_idx s -> ginv s ->
+  ginv (g_longjmp first_fixed s count).
+Proof. exact longjmp_keeps_got_invariant. Qed.
+Print Assumptions C11_longjmp_keeps_got_invariant.
+
+(* witness (qsort called for the first time and left by longjmp from its callback) and the walk as found (from count) *)
+Theorem C11_first_libcall_left_by_longjmp :
+  g_got witness_first_libcall 1 = false /\
+  g_got (g_longjmp first_fixed witness_first_libcall 3) 1 = true /\
+  g_got (g_longjmp first_legacy witness_first_libcall 3) 1 = false /\
+  g_idx (g_longjmp first_fixed witness_first_libcall 3) = 2.
+Proof. exact first_libcall_left_by_longjmp. Qed.
+Print Assumptions C11_first_libcall_left_by_longjmp.
+
 (* vfork (prepare_vfork / setup_vfork / restore_vfork): for every legal program in which, at any points, a
    vfork child runs on the parent's stack and shadow stack - calls, returns, tail calls, PLT calls, setjmp,
    exceptions caught inside the child, until it execs or exits from any depth, never returning from the
@@ -106,8 +130,14 @@ Theorem C11_vfork_other_thread_untouched : forall pid thr t sv, thr <> s_thr sv 
 Proof. exact vfork_other_thread_untouched. Qed.
 Print Assumptions C11_vfork_other_thread_untouched.
 
+(* nor does a hook the calling thread itself runs in the parent before the child has run (a signal handler between the
+   entry hook of vfork and the system call): the saved state stays for the real return *)
+Theorem C11_vfork_before_child_untouched : forall pid thr t sv, s_ran sv = false -> vrestore pid thr t sv = (t, sv).
+Proof. exact vfork_before_child_untouched. Qed.
+Print Assumptions C11_vfork_before_child_untouched.
+
 Theorem C11_vfork_legacy_other_thread_refuted :
-  let sv := {| s_pid := 7; s_thr := 1; s_idx := 3; s_ridx := 3; s_ent := {| v_id := 9; v_norec := false |} |} in
+  let sv := {| s_pid := 7; s_thr := 1; s_idx := 3; s_ridx := 3; s_ent := {| v_id := 9; v_norec := false |}; s_ran := true |} in
   let t2 := vpush vth0 {| v_id := 5; v_norec := false |} in
   vshape (fst (vrestore_legacy 7 2 t2 sv)) = (3, 3, [false; false; false]) /\ vshape t2 = (1, 1, [false]) /\
   vshape (fst (vrestore 7 2 t2 sv)) = (1, 1, [false]).
